@@ -2,7 +2,9 @@
 #include "../../../../common/debug.h"
 #include "../../core/interpreter.h"
 #include "../../core/pointer_metadata.h"
+#include "../functions/generic_instantiation.h"
 #include <cinttypes>
+#include <cmath>
 #include <cstdio>
 #include <stdexcept>
 
@@ -31,6 +33,178 @@ int64_t checked_incdec_value(Interpreter &interpreter, const std::string &op,
     }
     interpreter.check_type_range(type, new_value, name, is_unsigned);
     return new_value;
+}
+
+// 整数リテラルのノード（パーサーが作るものと同じ形）
+std::unique_ptr<ASTNode> make_int_literal(int64_t value) {
+    auto literal = std::make_unique<ASTNode>(ASTNodeType::AST_NUMBER);
+    literal->literal_type = TYPE_INT;
+    literal->type_info = TYPE_INT;
+    literal->int_value = value;
+    literal->double_value = static_cast<double>(value);
+    literal->quad_value = static_cast<long double>(value);
+    literal->literal_text = std::to_string(value);
+    return literal;
+}
+
+// 浮動小数点リテラルのノード（type は TYPE_FLOAT / TYPE_DOUBLE / TYPE_QUAD）
+std::unique_ptr<ASTNode> make_float_literal(long double value, TypeInfo type) {
+    auto literal = std::make_unique<ASTNode>(ASTNodeType::AST_NUMBER);
+    literal->is_float_literal = true;
+    literal->literal_type = type;
+    literal->type_info = type;
+    literal->quad_value = value;
+    literal->double_value = static_cast<double>(value);
+    literal->int_value = static_cast<int64_t>(value);
+    literal->literal_text = std::to_string(value);
+    return literal;
+}
+
+// m[i][j], s.x, s.a[i], oa[i].x, p->x, (*p).x, ... : 要素・メンバーへの
+// アクセスだけで構成された左辺値かどうか
+bool is_lvalue_path(const ASTNode *node) {
+    if (!node) {
+        return false;
+    }
+    switch (node->node_type) {
+    case ASTNodeType::AST_VARIABLE:
+    case ASTNodeType::AST_IDENTIFIER:
+    case ASTNodeType::AST_ARRAY_REF:
+    case ASTNodeType::AST_MEMBER_ACCESS:
+    case ASTNodeType::AST_ARROW_ACCESS:
+        return true;
+    case ASTNodeType::AST_UNARY_OP:
+        return node->op == "DEREFERENCE";
+    default:
+        return false;
+    }
+}
+
+// `copy` はオペランド `orig` の複製。左辺値の中の添字式（およびポインタを
+// 返す式）を左から右へ一度ずつ評価し、その値をリテラルとして `copy` に
+// 埋め込む。以後 `copy` は何度読み書きしても副作用がなく、同じ場所を指す。
+void freeze_lvalue(
+    const ASTNode *orig, ASTNode *copy,
+    const std::function<int64_t(const ASTNode *)> &evaluate_expression_func) {
+    if (is_lvalue_path(orig) && copy) {
+        switch (orig->node_type) {
+        case ASTNodeType::AST_VARIABLE:
+        case ASTNodeType::AST_IDENTIFIER:
+            return;
+        case ASTNodeType::AST_ARRAY_REF:
+            if (!orig->array_index) {
+                break;
+            }
+            freeze_lvalue(orig->left.get(), copy->left.get(),
+                          evaluate_expression_func);
+            copy->array_index = make_int_literal(
+                evaluate_expression_func(orig->array_index.get()));
+            return;
+        case ASTNodeType::AST_MEMBER_ACCESS:
+            freeze_lvalue(orig->left.get(), copy->left.get(),
+                          evaluate_expression_func);
+            return;
+        default: // ptr->member, (*ptr)
+            if (!orig->left) {
+                break;
+            }
+            if (is_lvalue_path(orig->left.get())) {
+                freeze_lvalue(orig->left.get(), copy->left.get(),
+                              evaluate_expression_func);
+            } else {
+                // getp()->x++ : ポインタを返す式も一度だけ評価する
+                copy->left = make_int_literal(
+                    evaluate_expression_func(orig->left.get()));
+            }
+            return;
+        }
+    }
+    // f().x++, (a + b)++ など: 左辺値ではない
+    error_msg(DebugMsgId::DIRECT_ARRAY_ASSIGN_ERROR);
+    throw std::runtime_error("Invalid increment/decrement operation");
+}
+
+// 浮動小数点型 type の場所に格納された値 stored が expected と一致するか
+bool holds_float_value(const TypedValue &stored, long double expected,
+                       TypeInfo type) {
+    if (!stored.is_floating()) {
+        return false;
+    }
+    if (std::isnan(expected)) {
+        return std::isnan(stored.as_double());
+    }
+    if (type == TYPE_QUAD) {
+        return stored.as_quad() == expected;
+    }
+    if (type == TYPE_FLOAT) {
+        return static_cast<float>(stored.as_double()) ==
+               static_cast<float>(static_cast<double>(expected));
+    }
+    return stored.as_double() == static_cast<double>(expected);
+}
+
+// 単純な変数・1次元配列要素以外の左辺値 T（多次元配列の要素、構造体メンバー、
+// メンバー配列の要素、構造体配列要素のメンバー、ptr->member, ...）に対する
+// ++ / --。T の中の式を一度だけ評価したうえで、代入文 `T = T + 1` /
+// `T = T - 1` として実行する。型範囲・const の検査も、struct_members と
+// "s.x" 形式の個別変数の同期も、代入と同じコードが行う。
+int64_t incdec_through_assignment(
+    const ASTNode *node, Interpreter &interpreter,
+    const std::function<int64_t(const ASTNode *)> &evaluate_expression_func) {
+    std::unique_ptr<ASTNode> target =
+        GenericInstantiation::clone_ast_node(node->left.get());
+    freeze_lvalue(node->left.get(), target.get(), evaluate_expression_func);
+
+    auto read_target = [&](const ASTNode *lvalue) -> TypedValue {
+        try {
+            TypedValue value = interpreter.evaluate_typed(lvalue);
+            if (value.is_numeric()) {
+                return value;
+            }
+        } catch (const ReturnException &) {
+            // 構造体や配列そのもの（s.inner++ など）
+        }
+        throw std::runtime_error(
+            "Invalid increment/decrement operand: not a numeric value");
+    };
+
+    TypedValue old_value = read_target(target.get());
+    const bool is_increment = (node->op == "++");
+
+    ASTNode assign(ASTNodeType::AST_ASSIGN);
+    assign.location = node->location;
+    long double new_float = 0.0L;
+    if (old_value.is_floating()) {
+        // T = <old ± 1.0>（T と同じ浮動小数点型のリテラル）
+        new_float = old_value.as_quad() + (is_increment ? 1.0L : -1.0L);
+        assign.right = make_float_literal(new_float, old_value.numeric_type);
+    } else {
+        // T = T ± 1（整数。ポインタメンバーのポインタ演算も二項演算子に任せる）
+        auto sum = std::make_unique<ASTNode>(ASTNodeType::AST_BINARY_OP);
+        sum->op = is_increment ? "+" : "-";
+        sum->location = node->location;
+        sum->left = GenericInstantiation::clone_ast_node(target.get());
+        sum->right = make_int_literal(1);
+        assign.right = std::move(sum);
+    }
+    assign.left = std::move(target);
+    interpreter.execute_statement(&assign);
+
+    const bool is_prefix = (node->node_type == ASTNodeType::AST_PRE_INCDEC);
+    if (!is_prefix && !old_value.is_floating()) {
+        return old_value.as_numeric();
+    }
+
+    TypedValue stored = read_target(assign.left.get());
+    // 代入の経路によっては浮動小数点値をまだ正しく格納できない（self.d = v,
+    // (*p).d = v は値を切り捨てる）。誤った値のまま続行せず、エラーにする。
+    if (old_value.is_floating() &&
+        !holds_float_value(stored, new_float, old_value.numeric_type)) {
+        throw std::runtime_error(
+            "Increment/decrement of a floating-point value is not supported "
+            "through this kind of access");
+    }
+    return is_prefix ? stored.as_numeric() : old_value.as_numeric();
 }
 
 } // namespace
@@ -357,97 +531,11 @@ int64_t evaluate_incdec(
             }
         }
     }
-    // 構造体メンバーアクセスの場合
-    else if (node->left->node_type == ASTNodeType::AST_MEMBER_ACCESS) {
-        // メンバーアクセスからオブジェクト名とメンバー名を取得
-        if (!node->left->left ||
-            node->left->left->node_type != ASTNodeType::AST_VARIABLE) {
-            throw std::runtime_error(
-                "Invalid member access in increment/decrement");
-        }
-
-        std::string obj_name = node->left->left->name;
-        std::string member_name = node->left->name;
-
-        Variable *var = interpreter.find_variable(obj_name);
-        if (!var || var->struct_members.empty()) {
-            throw std::runtime_error("Undefined struct variable: " + obj_name);
-        }
-
-        auto it = var->struct_members.find(member_name);
-        if (it == var->struct_members.end()) {
-            throw std::runtime_error("Undefined struct member: " + member_name);
-        }
-
-        // const 構造体のメンバー、または const メンバーは変更不可
-        if (var->is_const || it->second.is_const) {
-            reject_const_incdec(obj_name + "." + member_name);
-        }
-
-        // 型に応じた処理
-        if (it->second.type == TYPE_FLOAT) {
-            float old_value = it->second.float_value;
-            if (node->op == "++") {
-                it->second.float_value += 1.0f;
-            } else if (node->op == "--") {
-                it->second.float_value -= 1.0f;
-            }
-            if (node->node_type == ASTNodeType::AST_PRE_INCDEC) {
-                return static_cast<int64_t>(it->second.float_value);
-            } else {
-                return static_cast<int64_t>(old_value);
-            }
-        } else if (it->second.type == TYPE_DOUBLE) {
-            double old_value = it->second.double_value;
-            if (node->op == "++") {
-                it->second.double_value += 1.0;
-            } else if (node->op == "--") {
-                it->second.double_value -= 1.0;
-            }
-            if (node->node_type == ASTNodeType::AST_PRE_INCDEC) {
-                return static_cast<int64_t>(it->second.double_value);
-            } else {
-                return static_cast<int64_t>(old_value);
-            }
-        } else if (it->second.type == TYPE_QUAD) {
-            long double old_value = it->second.quad_value;
-            if (node->op == "++") {
-                it->second.quad_value += 1.0L;
-            } else if (node->op == "--") {
-                it->second.quad_value -= 1.0L;
-            }
-            if (node->node_type == ASTNodeType::AST_PRE_INCDEC) {
-                return static_cast<int64_t>(it->second.quad_value);
-            } else {
-                return static_cast<int64_t>(old_value);
-            }
-        } else {
-            // 整数型
-            int64_t old_value = it->second.value;
-
-            if (node->op == "++") {
-                it->second.value += 1;
-            } else if (node->op == "--") {
-                it->second.value -= 1;
-            }
-
-            if (node->node_type == ASTNodeType::AST_PRE_INCDEC) {
-                return it->second.value;
-            } else {
-                return old_value;
-            }
-        }
-    }
-    // 配列要素アクセスの場合
-    else if (node->left->node_type == ASTNodeType::AST_ARRAY_REF) {
+    // 変数を直接添字アクセスする配列要素の場合（arr[i]++）
+    else if (node->left->node_type == ASTNodeType::AST_ARRAY_REF &&
+             node->left->left &&
+             node->left->left->node_type == ASTNodeType::AST_VARIABLE) {
         debug_msg(DebugMsgId::INCDEC_ARRAY_ELEMENT_START);
-
-        // 配列アクセスを評価して配列要素のポインタを取得
-        if (!node->left->left ||
-            node->left->left->node_type != ASTNodeType::AST_VARIABLE) {
-            throw std::runtime_error(
-                "Invalid array access in increment/decrement");
-        }
 
         std::string array_name = node->left->left->name;
         debug_msg(DebugMsgId::INCDEC_ARRAY_NAME_FOUND, array_name.c_str());
@@ -593,8 +681,9 @@ int64_t evaluate_incdec(
                 "Unsupported array type for increment/decrement");
         }
     } else {
-        error_msg(DebugMsgId::DIRECT_ARRAY_ASSIGN_ERROR);
-        throw std::runtime_error("Invalid increment/decrement operation");
+        // m[i][j]++, s.x++, s.a[i]++, oa[i].x++, p->x++, ...
+        return incdec_through_assignment(node, interpreter,
+                                         evaluate_expression_func);
     }
 }
 
